@@ -235,3 +235,19 @@ package cors
 //@   requires m != nil
 //@   ensures C09.setdebug: m.debug == (b && old(m.icfg) != nil) && m.icfg == old(m.icfg)
 //@   ensures C09.inv_preserved: m.icfg == nil ==> !m.debug
+
+//@ func newConfig
+//@   props C06 C12 C17
+//@   requires icfg != nil ==> ICfgInv(icfg)
+//@   ensures icfg == nil ==> result == nil
+//@   ensures icfg != nil ==> result != nil && isfresh(result)
+
+//@ func Middleware.Config
+//@   props C06 C07 C17
+//@   requires m != nil
+//@   requires m.icfg != nil ==> ICfgInv(m.icfg)
+//@   ensures (result == nil) == (old(m.icfg) == nil)
+
+//@ func Middleware.Wrap
+//@   props C11 C17
+//@   requires m != nil
